@@ -83,10 +83,10 @@ def e_value(tier, shard, nshards):
 
 
 # ------------------------------------------------------------------ detection
-def _must_reject(frame, damaged, what):
+def _must_reject(frame, damaged, what, val=1):
     RTCMReader, RTCMParseError, _, _ = _lib()
     try:
-        RTCMReader.parse(damaged, validate=1)
+        RTCMReader.parse(damaged, validate=val)
     except RTCMParseError:
         return
     except Exception as e:  # pylint: disable=broad-except
@@ -158,7 +158,9 @@ def o_detect(case):
             assert len(pos) % 2 == 1
         if kind == "pair":
             assert len(pos) == 2
-        _must_reject(frame, framing.flip_bits(frame, pos), f"{kind} {pos}")
+        # validation is a bit flag (VALCKSUM = 1, tested with &): any word with bit 0 set means "on"
+        val = case.get("val", 1)
+        _must_reject(frame, framing.flip_bits(frame, pos), f"{kind} {pos}" + ("" if val == 1 else f" with validate={val!r}"), val)
         evals = 1
         cnt = None
         digs = [digest([case["frame"], pos])] if nt else []
@@ -166,7 +168,9 @@ def o_detect(case):
             assert len(pos) <= 3 and pos[-1] - pos[0] < 24
         if kind == "trailer":
             assert pos[0] >= nbits - 24
-        cls = [kind] + (["zero-crc-frame"] if frame[-3:] == b"\0\0\0" else []) + ["in-header" if pos[0] < 24 else ("in-crc" if pos[-1] >= nbits - 24 else "in-payload")]
+        if kind == "header":
+            assert pos[-1] < 16
+        cls = [kind] + ([] if val == 1 and val is not True else ["validate-flag-word"]) + (["zero-crc-frame"] if frame[-3:] == b"\0\0\0" else []) + ["in-header" if pos[0] < 24 else ("in-crc" if pos[-1] >= nbits - 24 else "in-payload")]
     return Res(nontrivial=nt, classes=cls, evals=evals, digests=digs if cnt is None else None, count=cnt)
 
 
@@ -237,9 +241,23 @@ def _frames(tier):
 
 @st.composite
 def s_detect(draw, tier):
+    case = draw(_s_detect(tier))
+    case["val"] = draw(st.sampled_from([1, 1, 1, True, 3, 5, 0xFF, -1, 0x7FFFFFFF]))
+    return case
+
+
+@st.composite
+def _s_detect(draw, tier):
     frame = draw(_frames(tier))
     nbits = len(frame) * 8
-    kind = draw(st.sampled_from(["pair", "pair", "odd", "burst", "burst", "single", "lower-length", "lower-length", "trailer", "trailer"]))
+    kind = draw(st.sampled_from(["pair", "pair", "odd", "burst", "burst", "single", "lower-length", "lower-length", "trailer", "trailer", "header"]))
+    if kind == "header":
+        # the first two bytes turned into another protocol's header (UBX, NMEA) or another look-alike: a burst of <= 16 bits
+        new = draw(st.one_of(st.sampled_from([b"\xb5\x62", b"$G", b"$P", b"$E", b"\xb5\x00", b"\xd3\xd3", b"\x00\x00", b"\xff\xff", b"\r\n"]), st.binary(min_size=2, max_size=2)))
+        diff = int.from_bytes(new, "big") ^ int.from_bytes(frame[:2], "big")
+        if diff:
+            return {"frame": frame.hex(), "mode": "explicit", "kind": "header", "positions": [k for k in range(16) if diff >> (15 - k) & 1]}
+        kind = "single"
     if kind == "trailer":
         # the whole trailer replaced by a look-alike value (all zero, all ones, CR LF ...): a burst of <= 24 bits
         new = draw(st.one_of(st.sampled_from([b"\0\0\0", b"\xff\xff\xff", b"\x00\r\n", b"\xd3\x00\x00", b"\x00\x00\x01", b"\x80\x00\x00"]), st.binary(min_size=3, max_size=3)))
